@@ -65,6 +65,20 @@ func (r *recBalancer) Balance(msg kafka.Message, partitions ...int) int {
 	if !found {
 		st.s.Fail("C13", "R0-offered", "%T returned partition %d which is not among the offered %v", r.inner, p, partitions)
 	}
+	// the Writer offers the topic's partition ids: 0..n-1, each once
+	for i, q := range partitions {
+		if q != i {
+			st.s.Fail("C13", "R0-offered-list", "the Writer offered the balancer a partition list of %d entries whose entry %d is %d (topic %q)", len(partitions), i, q, msg.Topic)
+			break
+		}
+	}
+	topic := msg.Topic
+	if topic == "" && st.w != nil {
+		topic = st.w.Topic
+	}
+	if top := st.cl.Topics[topic]; top != nil && len(partitions) != len(top.Parts) && !st.partsChanged {
+		st.s.Fail("C13", "R0-offered-list", "the Writer offered the balancer %d partitions for topic %q, which has %d", len(partitions), topic, len(top.Parts))
+	}
 	if want, name := refBalance(r.inner, msg.Key, len(partitions)); want >= 0 && p != want && found {
 		st.s.Fail("C13", "R1-reference-hash", "%s: key %x over %d partitions: got %d, the reference client picks %d", name, msg.Key, len(partitions), p, want)
 	}
@@ -99,6 +113,7 @@ type writerState struct {
 	closeReturned                   int
 	closeInvokedAt, closeReturnedAt time.Duration
 	raceClose                       bool
+	partsChanged                    bool // the scenario changed a topic's partition count during the run
 	seenReq                         int
 	// per (topic,partition): applied request indexes in log order
 }
@@ -470,6 +485,10 @@ func writerScenario(s *Sim, params map[string]string) {
 		nparts := t.Range("cfg", 1, 4)
 		if params["focus"] == "order" {
 			nparts = t.Range("cfg", 1, 2)
+		} else if i == ntop-1 && t.Intn("cfg", 8) == 0 {
+			// a wide topic (the Writer keeps a process-wide cache of partition
+			// lists that grows in steps of 128)
+			nparts = t.Range("cfg", 129, 300)
 		}
 		cl.AddTopic(name, nparts, func(int) int32 { return int32(1 + t.Intn("cfg", nb)) })
 	}
